@@ -11,7 +11,7 @@ import re._constants as sre_c
 from .. import astutil as A
 from ..fa import FA
 from ..loader import AnalysisError
-from .fresh import flow_nodes, attr_writes, at_of, reaches_avoiding, alternatives, flag_conditions
+from .fresh import flow_nodes, attr_writes, at_of, reaches_avoiding, alternatives, flag_conditions, class_units as _listing_units
 
 FR = "reference.FunctionReference"
 
@@ -707,30 +707,6 @@ def check_unresolvable_is_absent(ck, R3):
 # ---- names that were stored are the names that are listed -----------------------------------------------------------
 FSDS = "storage_filesystem._FilesystemDataSource"
 _UNQUOTERS = ("unquote", "unquote_plus", "unquote_to_bytes")
-
-
-def _listing_units(ck, ls: FA, limit=12):
-    """The functions that make up the listing: list_keys_nonversioned itself, its nested generators and — when those
-    were hoisted out — every function of its class / module it refers to (called on the spot, or picked first
-    `walker = self._walk_flat` and called later), transitively.  -> [FuncInfo]"""
-    cls = ls.fi.cls
-    out, todo = [], [ls.fi]
-    while todo and len(out) < limit:
-        fi = todo.pop(0)
-        if any(fi is x for x in out):
-            continue
-        out.append(fi)
-        todo += list(fi.nested.values())
-        for n in A.walk_body(fi.node):
-            tgt = None
-            if isinstance(n, ast.Attribute) and isinstance(n.value, ast.Name) and isinstance(n.ctx, ast.Load) and cls is not None \
-                    and n.value.id in ("self", "cls", cls.node.name) and n.attr in cls.methods:
-                tgt = cls.methods[n.attr]
-            elif isinstance(n, ast.Name) and isinstance(n.ctx, ast.Load) and n.id in fi.module.functions:
-                tgt = fi.module.functions[n.id]
-            if tgt is not None and not any(tgt is x for x in out) and not any(tgt is x for x in todo):
-                todo.append(tgt)
-    return out
 
 
 def _escape_pairs(ek: FA):
